@@ -13,7 +13,9 @@
 (*   together with construct kind / clause / event position of the statement's rejection.   *)
 EXTENDS PyExprCore
 
-Cases == JsonDeserialize(IOEnv.CASES)
+\* deserialised ONCE (a plain definition is re-evaluated at every reference: quadratic)
+ASSUME TLCSet(1, JsonDeserialize(IOEnv.CASES))
+Cases == TLCGet(1)
 MaxFlags == 4
 
 RECURSIVE Kinds(_)
@@ -48,12 +50,13 @@ Trigger(f) ==
     [] f \in {"aug-target-twice", "aug-binary-op"} -> {"AugAssign"}
     [] f = "fstring-conv-ignored" -> {"FormattedValue"}
     [] f = "uadd-noop" -> {"UnaryOp"}
+    [] f = "matmul-unsupported" -> {"BinOp", "AugAssign"}
     [] f = "unpack-consumes-all" -> {"Tuple", "List"}
     [] f = "comp-leak-on-raise" -> {"ListComp", "SetComp", "DictComp"}
     [] f = "genexp-unsupported" -> {"GeneratorExp"}
     [] f \in {"del-attr-as-state", "del-tuple-unsupported"} -> {"Delete"}
     [] f = "list-target-unsupported" -> {"List"}
-    [] f = "dstar-pairs" -> {"DStar"}
+    [] f \in {"dstar-pairs", "kw-dup-accepted"} -> {"DStar"}
     [] f \in {"star-target-nonname", "star-uses-add"} -> {"Starred"}
     [] OTHER -> {}
 
